@@ -204,7 +204,7 @@ func c20Scenarios(r *hx.Run) []hx.Scenario {
 		cc.quiet = 25 * time.Second
 		add("converge:"+cc.name(), c05Body(cc))
 	}
-	for _, k := range []string{"shutdown-vs-reconnect", "shutdown-vs-browse", "shutdown-in-retry-sleep", "announce-vs-reconnect", "double-disconnect"} {
+	for _, k := range []string{"shutdown-vs-reconnect", "shutdown-vs-browse", "shutdown-in-retry-sleep", "shutdown-at-retry-wakeup", "announce-vs-reconnect", "double-disconnect"} {
 		add("avahi:"+k, mdnsscen.RaceBody(k))
 	}
 	for _, cc := range []c18cfg{{name: "pending", bWaits: true}, {name: "remote-denial"}, {name: "local-cancel-early", bWaits: true, aCancels: true, cancelAt: 100 * time.Millisecond}} {
